@@ -3,6 +3,7 @@ package main
 import (
 	"fmt"
 	"go/types"
+	"regexp"
 	"sort"
 	"strings"
 )
@@ -92,8 +93,16 @@ func (u *Universe) Preamble() string {
 	return b.String()
 }
 
+var anyWord = regexp.MustCompile(`\bany\b`)
+
+// canonType: the printed form of a type with the alias `any` written as interface{} (types from contracts are built
+// with interface{}, types from the program may print the alias).
+func canonType(t types.Type) string {
+	return anyWord.ReplaceAllString(types.TypeString(t, nil), "interface{}")
+}
+
 func (u *Universe) TypeID(t types.Type) int {
-	k := types.TypeString(t, nil)
+	k := canonType(t)
 	if id, ok := u.typeIDs[k]; ok {
 		return id
 	}
